@@ -286,6 +286,20 @@ func Build(repo string) *Corpus {
 			withSeeds++
 		}
 	}
+	// hand-made seeds for types that neither the fixtures nor the search reach
+	for t, list := range handMade() {
+		for _, b := range list {
+			ok := false
+			vlib.Guard(func() {
+				ls := gopacket.NewPacket(b, t, gopacket.DecodeOptions{NoCopy: true}).Layers()
+				ok = len(ls) > 0 && ls[0].LayerType() != gopacket.LayerTypeDecodeFailure
+			})
+			if ok {
+				c.Seeds[t] = append(c.Seeds[t], b)
+				c.Stats["hand_made_seeds"]++
+			}
+		}
+	}
 	// types the fixtures never reach: search a fixed PRNG sequence of short inputs for ones whose first layer decodes as
 	// t, preferring those that get furthest (most layers in front of a failure) - prefixes and mutations of these walk
 	// the failure point through every layer boundary the decoder chain has
@@ -752,4 +766,43 @@ func (c *Corpus) Input(r *vlib.Rand, t gopacket.LayerType) ([]byte, string) {
 		return c.Mutate(r, c.All[r.Intn(len(c.All))])
 	}
 	return Plain(r)
+}
+
+// handMade returns minimal well-formed encodings, written from the protocol layouts, for layer types without fixtures.
+func handMade() map[gopacket.LayerType][][]byte {
+	a4, b4 := pk.A4([]byte{10, 0, 0, 1}), pk.A4([]byte{10, 0, 0, 2})
+	ip := pk.IPv4(pk.IPv4H{TTL: 64, Proto: 17, Src: a4, Dst: b4, ID: 7}, pk.UDP(40001, 40002, []byte("hello, world"), func(n int) []byte { return pk.PseudoV4(a4, b4, 17, n) }))
+	snap := append([]byte{0xaa, 0xaa, 0x03, 0, 0, 0, 0x08, 0x00}, ip...)
+	eth := pk.Eth(pk.M6([]byte{2, 0, 0, 0, 0, 1}), pk.M6([]byte{2, 0, 0, 0, 0, 2}), 0x0800, ip)
+	pktap := make([]byte, 156)
+	binary.LittleEndian.PutUint32(pktap[0:], 156)
+	binary.LittleEndian.PutUint32(pktap[4:], 1)
+	binary.LittleEndian.PutUint32(pktap[8:], 1) // DLT_EN10MB
+	copy(pktap[0x0c:], "en0")
+	binary.LittleEndian.PutUint32(pktap[0x24:], 1)
+	binary.LittleEndian.PutUint32(pktap[0x28:], 2)
+	binary.LittleEndian.PutUint32(pktap[0x2c:], 14)
+	binary.LittleEndian.PutUint32(pktap[0x34:], 4242)
+	copy(pktap[0x38:], "curl")
+	copy(pktap[0x58:], "curl")
+	pktap = append(pktap, eth...)
+	return map[gopacket.LayerType][][]byte{
+		layers.LayerTypeSCTPHeartbeat:          {{4, 0, 0, 12, 0, 1, 0, 8, 0xde, 0xad, 0xbe, 0xef}, {4, 0, 0, 16, 0, 1, 0, 10, 1, 2, 3, 4, 5, 6, 0, 0}},
+		layers.LayerTypeSCTPHeartbeatAck:       {{5, 0, 0, 12, 0, 1, 0, 8, 0xde, 0xad, 0xbe, 0xef}},
+		layers.LayerTypeSCTPError:              {{9, 0, 0, 12, 0, 1, 0, 8, 0, 5, 0, 0}, {9, 0, 0, 20, 0, 2, 0, 8, 0, 0, 0, 7, 0, 6, 0, 8, 0x3f, 0, 0, 4}},
+		layers.LayerTypeSCTPAbort:              {{6, 0, 0, 12, 0, 12, 0, 8, 'b', 'y', 'e', '!'}, {6, 1, 0, 4}},
+		layers.LayerTypeSCTPUnknownChunkType:   {{0x3f, 0, 0, 8, 1, 2, 3, 4}, {0xc1, 0, 0, 6, 1, 2, 0, 0}},
+		layers.LayerTypeSCTPEmptyLayer:         {{11, 0, 0, 4}, {8, 0, 0, 4}, {14, 1, 0, 4}},
+		layers.LayerTypeSCTPShutdown:           {{7, 0, 0, 8, 0, 0, 0, 9}},
+		layers.LayerTypeSCTPCookieEcho:         {{10, 0, 0, 12, 1, 2, 3, 4, 5, 6, 7, 8}},
+		layers.LayerTypeSCTPInit:               {{1, 0, 0, 32, 0, 0, 0, 1, 0, 1, 0, 0, 0, 2, 0, 2, 0, 0, 0, 9, 0, 5, 0, 8, 10, 0, 0, 1, 0xc0, 0, 0, 4}},
+		layers.LayerTypeSCTPInitAck:            {{2, 0, 0, 32, 0, 0, 0, 1, 0, 1, 0, 0, 0, 2, 0, 2, 0, 0, 0, 9, 0, 7, 0, 12, 1, 2, 3, 4, 5, 6, 7, 8}},
+		layers.LayerTypeSCTPSack:               {{3, 0, 0, 24, 0, 0, 0, 9, 0, 1, 0, 0, 0, 1, 0, 1, 0, 2, 0, 3, 0, 0, 0, 7}},
+		layers.LayerTypeDot11DataCFAck:         {snap},
+		layers.LayerTypeDot11DataCFPoll:        {snap},
+		layers.LayerTypeDot11DataCFAckPoll:     {snap},
+		layers.LayerTypeEthernetCTPForwardData: {{2, 0, 0xaa, 0xbb, 0xcc, 0xdd, 0xee, 0xff, 1, 0, 0x12, 0x34, 0xde, 0xad, 0xbe, 0xef}},
+		layers.LayerTypeEthernetCTPReply:       {{1, 0, 0x12, 0x34, 0xde, 0xad, 0xbe, 0xef}},
+		layers.LayerTypePktap:                  {pktap},
+	}
 }
